@@ -209,9 +209,20 @@ fn run_segments(args: &[String], cfg: &Config) {
             plan.push((String::new(), 0));
         }
 
+        let first_run_of_segment = runs + 1;
+        // optional list of the callback numbers to arm (default: 1, 2, 3, ...)
+        let ns: Vec<u32> = seg["ns"].as_array()
+            .map(|v| v.iter().filter_map(|x| x.as_u64().map(|n| n as u32)).collect())
+            .unwrap_or_default();
+        let nth = |i: u32| -> Option<u32> {
+            if ns.is_empty() { if i <= max_n { Some(i) } else { None } }
+            else { ns.get(i as usize - 1).cloned() }
+        };
+        let mut idx: u32 = 1;
         let mut kinds = sweep.clone();
         kinds.reverse();
-        let mut current: Option<(String, u32)> = if sweep.is_empty() { None } else { kinds.pop().map(|k| (k, 1)) };
+        let mut current: Option<(String, u32)> = if sweep.is_empty() { None }
+            else { kinds.pop().and_then(|k| nth(1).map(|n| (k, n))) };
 
         loop {
             let (kind, n) = if let Some(p) = plan.pop() { p }
@@ -224,12 +235,23 @@ fn run_segments(args: &[String], cfg: &Config) {
             let mut broken = false;
             let corrupt = |ev: &Value| ev["st"]["alive"] == true && ev["st"]["trav"] == false;
 
+            // A long prefix (a cache of a hundred entries) is logged in full only in the first
+            // run of a sweep; later runs replay it silently and log one `sync` event carrying
+            // the state it leads to, which the trace specification adopts.
+            let quiet = seg["quiet_prefix"] == true && runs > first_run_of_segment;
+            let mut last_ev = Value::Null;
+
             for o in prefix.iter() {
                 if broken { break; }
                 let ev = session.exec(o);
                 broken = corrupt(&ev);
-                writeln!(events, "{}", ev).unwrap();
+                if quiet { last_ev = ev; } else { writeln!(events, "{}", ev).unwrap(); }
                 executed += 1;
+            }
+
+            if quiet && !last_ev.is_null() {
+                last_ev["a"]["op"] = json!("sync");
+                writeln!(events, "{}", last_ev).unwrap();
             }
 
             let mut o = seg["op"].clone();
@@ -270,8 +292,15 @@ fn run_segments(args: &[String], cfg: &Config) {
                     *per_kind.entry(kind.clone()).or_default() += 1;
                 }
 
-                current = if did_fire && n < max_n { Some((kind, n + 1)) }
-                          else { kinds.pop().map(|k| (k, 1)) };
+                let _ = n;
+                current = if did_fire && nth(idx + 1).is_some() {
+                    idx += 1;
+                    nth(idx).map(|m| (kind, m))
+                }
+                else {
+                    idx = 1;
+                    kinds.pop().and_then(|k| nth(1).map(|m| (k, m)))
+                };
             }
             else if sweep.is_empty() {
                 break;
